@@ -42,6 +42,7 @@ class CanCfg:
     enums_max_bits: int = 16
     big_endian: bool = True
     mux: bool = True
+    mux_two_selectors: bool = False  # two independent selector fields in one message (C17 only: not a valid simple DBC)
     buses: bool = True
     devices: bool = True
     units: bool = True
@@ -225,6 +226,14 @@ def can_signal_blocks(draw, s: M.Schema, struct_name: str, cfg: CanCfg) -> List[
                 tgt = draw(st.sampled_from(free))
                 blocks.setdefault(tgt, []).append(("mux_count", draw(st.integers(1, min(16, 1 << sel.width)))))
                 blocks[tgt].append(("mux_signal", sel.field))
+            if cfg.mux_two_selectors and draw(st.booleans()):
+                free2 = [f for f, lf in top_scalar.items() if f != mx.field and f not in blocks]
+                sels = [f for f in free2 if isinstance(top_scalar[f].type, M.U)]
+                if sels and len(free2) >= 2:
+                    sel2 = draw(st.sampled_from(sels))
+                    tgt2 = draw(st.sampled_from([f for f in free2 if f != sel2]))
+                    blocks.setdefault(tgt2, []).append(("mux_count", draw(st.integers(1, min(16, 1 << top_scalar[sel2].width)))))
+                    blocks[tgt2].append(("mux_signal", sel2))
     for fname, fl in blocks.items():
         out.append(M.SignalBlock(fname, fl))
     return out
